@@ -8,7 +8,7 @@ ids = [c['property_id'] for c in json.load(open(os.path.join(HERE, 'MANIFEST.jso
 dirty = subprocess.run(['git', '-C', '/repo', 'status', '--porcelain', '--untracked-files=no'], stdout=subprocess.PIPE).stdout.decode().strip()
 if dirty:
     print('refusing: /repo has uncommitted changes'); sys.exit(2)
-for diff in sys.argv[1:]:
+for diff in [os.path.abspath(x) for x in sys.argv[1:]]:
     ev = tempfile.mkdtemp(prefix='refcheck-')
     try:
         r = subprocess.run(['git', '-C', '/repo', 'apply', diff])
